@@ -254,4 +254,33 @@ def signedInputs (r : Result) (sigs : List Int) : List (Kind × Int) :=
 /-- the fee the transaction really pays -/
 def Result.fee (r : Result) : Int := sumCoins r.inputs - sumOuts r.outs
 
+/-! ### wallet-level change script size (op `wchange`, round-4 seed C07-6)
+
+`Wallet.addrMgrWithChangeSource` hands txauthor the size of the change script of the ACCOUNT's internal address type
+(the account's address-schema override wins over the scope default).  One coin, one P2WPKH payment, change exists. -/
+
+/-- imported account kinds: traditional BIP-0049 (override: nested everywhere), BIP-0049Plus, BIP-0084 -/
+inductive AcctKind where
+  | imp49n | imp49p | imp84
+deriving Repr, DecidableEq
+
+def AcctKind.ofString (s : String) : Option AcctKind :=
+  if s == "imp49n" then some .imp49n else if s == "imp49p" then some .imp49p
+  else if s == "imp84" then some .imp84 else none
+
+/-- size of the account's REAL change script: nested P2WPKH (P2SH, 23) for the traditional BIP-0049 account -/
+def AcctKind.changeSize : AcctKind → Int
+  | .imp49n => 23 | .imp49p => 22 | .imp84 => 22
+
+/-- the receive (funding) script is nested P2WPKH except for BIP-0084 -/
+def AcctKind.nestedInput : AcctKind → Bool
+  | .imp84 => false | _ => true
+
+/-- the estimate txauthor prices: one input of the account's receive type, the payment, the true change size -/
+def walletChangeEstimate (k : AcctKind) (outs : List TxOut) : Int :=
+  SizesGen.EstimateVirtualSize 0 0 (if k.nestedInput then 0 else 1) (if k.nestedInput then 1 else 0) outs k.changeSize
+
+def walletChangeFee (k : AcctKind) (rate : Int) (outs : List TxOut) : Int :=
+  SizesGen.FeeForSerializeSize rate (walletChangeEstimate k outs)
+
 end Author
